@@ -517,7 +517,7 @@ func init() {
 			}
 		}
 		wgAll.Wait()
-		c.close([]string{"watch:order", "watch:symlink-rotation", "watch:atomic-replace", "watch:large-htpasswd", "seq:htpasswd", "seq:usermap", "seq:good-version", "seq:malformed-version", "conc:htpasswd", "conc:usermap",
+		c.close([]string{"watch:order", "watch:quick-saves", "watch:chunked-write", "watch:delete-gap-recreate", "watch:symlink-rotation", "watch:atomic-replace", "watch:large-htpasswd", "seq:htpasswd", "seq:usermap", "seq:good-version", "seq:malformed-version", "conc:htpasswd", "conc:usermap",
 			"conc:reload", "conc:malformed-reload", "conc:validations", "conc:window-mattered", "conc:reloaders-2"})
 	})
 }
@@ -626,6 +626,124 @@ func rlWatched(c *suiteCtx, dir string) {
 			}
 		} else {
 			c.violation("HARNESS", "htpasswd validator: "+err.Error(), nil)
+		}
+	}
+	// ---- htpasswd through its own watcher: saves in quick succession, a version written in two chunks, a file that is
+	// deleted and only re-created seconds later (a deploy script: rm, render, write).  The LAST contents come into force every time
+	{
+		inForce := func(v basic.Validator, user, pw string, within time.Duration) bool {
+			deadline := time.Now().Add(within)
+			for time.Now().Before(deadline) {
+				if v.Validate(user, pw) {
+					return true
+				}
+				time.Sleep(2 * time.Millisecond)
+			}
+			return v.Validate(user, pw)
+		}
+		line := func(user, pw string) string { return user + ":" + htpasswdSHA(pw) + "\n" }
+		for _, how := range []string{"in-place", "rename"} {
+			path := filepath.Join(dir, "quick-htpasswd-"+how)
+			os.WriteFile(path, []byte(line("u0", "pw0")), 0o600)
+			v, err := basic.NewHTPasswdValidator(path)
+			if err != nil {
+				c.violation("HARNESS", "htpasswd validator: "+err.Error(), nil)
+				continue
+			}
+			save := func(content string) {
+				if how == "rename" {
+					writeAtomic(path, content)
+				} else {
+					os.WriteFile(path, []byte(content), 0o600)
+				}
+			}
+			okAll := true
+			for n := 1; n <= 6 && okAll; n += 2 {
+				// revision n, and — the moment it is seen in force — revision n+1
+				save(line("kept", "pw-kept") + line(fmt.Sprintf("u%d", n), fmt.Sprintf("pw%d", n)))
+				first := inForce(v, fmt.Sprintf("u%d", n), fmt.Sprintf("pw%d", n), 25*time.Second)
+				save(line("kept", "pw-kept") + line(fmt.Sprintf("u%d", n+1), fmt.Sprintf("pw%d", n+1)))
+				second := inForce(v, fmt.Sprintf("u%d", n+1), fmt.Sprintf("pw%d", n+1), 25*time.Second)
+				time.Sleep(300 * time.Millisecond)
+				stale := v.Validate(fmt.Sprintf("u%d", n), fmt.Sprintf("pw%d", n))
+				c.casen(fmt.Sprintf("watch|quick-saves|%s|%d", how, n), fmt.Sprint(first, second, stale))
+				c.count("watch:quick-saves")
+				if !first || !second || stale {
+					okAll = false
+					c.violation("C20", "two revisions of the htpasswd file saved in quick succession (the second the moment the first was in force): the LAST one never came into force (25 s) / the one it replaced is still accepted",
+						map[string]interface{}{"save": how, "revision": n, "first_in_force": first, "second_in_force": second, "user_of_the_replaced_revision_still_accepted": stale})
+				}
+			}
+		}
+		// written in two chunks (a large file does not reach the disk in one write)
+		{
+			path := filepath.Join(dir, "chunked-htpasswd")
+			os.WriteFile(path, []byte(line("u0", "pw0")), 0o600)
+			if v, err := basic.NewHTPasswdValidator(path); err == nil {
+				var a, b strings.Builder
+				for i := 0; i < 3000; i++ {
+					a.WriteString(line(fmt.Sprintf("first-half-%04d", i), fmt.Sprintf("pw-a-%d", i)))
+					b.WriteString(line(fmt.Sprintf("second-half-%04d", i), fmt.Sprintf("pw-b-%d", i)))
+				}
+				if f, err := os.OpenFile(path, os.O_WRONLY|os.O_TRUNC, 0o600); err == nil {
+					f.WriteString(a.String())
+					f.Sync()
+					inForce(v, "first-half-2999", "pw-a-2999", 2*time.Second) // (whether or not the half-written file is picked up)
+					f.WriteString(b.String())
+					f.Close()
+					got := inForce(v, "second-half-2999", "pw-b-2999", 25*time.Second)
+					c.casen("watch|chunked", fmt.Sprint(got))
+					c.count("watch:chunked-write")
+					if !got || !v.Validate("first-half-0000", "pw-a-0") || v.Validate("u0", "pw0") {
+						c.violation("C20", "an htpasswd version written in two chunks did not come into force completely: 25 s after the file was closed the users of its second chunk are rejected",
+							map[string]interface{}{"second_chunk_user_accepted": got, "first_chunk_user_accepted": v.Validate("first-half-0000", "pw-a-0"), "user_of_the_old_version_accepted": v.Validate("u0", "pw0")})
+					}
+				}
+			}
+		}
+		// deleted, re-created seconds later — and rewritten once more after that
+		for _, kind := range []string{"htpasswd", "emails"} {
+			path := filepath.Join(dir, "gap-"+kind)
+			var valid func(n int) bool
+			content := func(n int) string { return line(fmt.Sprintf("u%d", n), fmt.Sprintf("pw%d", n)) }
+			if kind == "emails" {
+				content = func(n int) string { return fmt.Sprintf("u%d@example.com\n", n) }
+			}
+			os.WriteFile(path, []byte(content(0)), 0o600)
+			done := make(chan bool, 1)
+			if kind == "htpasswd" {
+				v, err := basic.NewHTPasswdValidator(path)
+				if err != nil {
+					continue
+				}
+				valid = func(n int) bool { return v.Validate(fmt.Sprintf("u%d", n), fmt.Sprintf("pw%d", n)) }
+			} else {
+				vf := newValidatorImpl(nil, path, done, func() {})
+				valid = func(n int) bool { return vf(fmt.Sprintf("u%d@example.com", n)) }
+			}
+			waitValid := func(n int) bool {
+				deadline := time.Now().Add(25 * time.Second)
+				for time.Now().Before(deadline) && !(valid(n) && !valid(n-1)) {
+					time.Sleep(20 * time.Millisecond)
+				}
+				return valid(n) && !valid(n-1)
+			}
+			os.Remove(path)
+			time.Sleep(5600 * time.Millisecond)
+			writeAtomic(path, content(1))
+			afterGap := waitValid(1)
+			time.Sleep(200 * time.Millisecond)
+			os.WriteFile(path, []byte(content(2)), 0o600)
+			later := waitValid(2)
+			c.casen("watch|gap|"+kind, fmt.Sprint(afterGap, later))
+			c.count("watch:delete-gap-recreate")
+			if !afterGap || !later {
+				c.violation("C20", "the watched "+kind+" file was deleted and re-created 5.6 s later, then rewritten: the new contents never came into force (25 s) — the removed user stays accepted until the proxy is restarted",
+					map[string]interface{}{"file": kind, "contents_after_the_gap_in_force": afterGap, "later_rewrite_in_force": later, "gap": "5.6s"})
+			}
+			if kind == "emails" {
+				done <- true
+			}
 		}
 	}
 	// ---- symlinks
